@@ -14,10 +14,13 @@
     rrule.spec <args> <lo> <hi> <max>         → ok <done 0|1> <item>*     (Spec.RRule.window, ordinals lo..hi)
     rrule.occ <args> <nperiods>               → ok <item>*                (Spec.RRule.occ, the plain definition)
     rrule.byok <args> <item>*                 → ok <flags>   per item: byOk ∧ on the interval grid ∧ ≥ dtstart
+    rrule.supported <args>                    → ok <family>|-             (RRule.family: the exactness theorem that covers
+                                                                           the argument set, Spec/RRuleSupported.lean)
 -/
 import DateutilVerif.Base.Wire
 import DateutilVerif.Model.RRule
 import DateutilVerif.Spec.RRule
+import DateutilVerif.Spec.RRuleSupported
 
 namespace Ops.RRule
 open Wire
@@ -159,6 +162,8 @@ def handle (op : String) (args : List String) : Option String :=
     | "rrule.occ", some [n] =>
         let l := Spec.RRule.occ a n.toNat
         some ("ok" ++ (if l.isEmpty then "" else " " ++ showItems l))
+    | "rrule.supported", some [] =>
+        some ("ok " ++ (match family a with | some f => f.name | none => "-"))
     | "rrule.byok", _ =>
         match rest.mapM parseItem? with
         | none => some "bad-args"
